@@ -181,6 +181,8 @@ def one_setup(chk, drv, it, stats):
     nv = rng.randint(max(vdeg + 1, 6 if cubic_uniform else 2), 10)
     rdeg = rng.choice([1, 2, 3])
     nr = max(nr, rdeg + 1)
+    if it % 10 == 7:
+        nr = [35, 50, 37][it // 10 % 3]          # many radial surfaces on one process (blocked loops over the radius)
     # half of the set-ups with profile constants away from their defaults (by default the electron and the ion temperature
     # profiles coincide, so a mix-up of the two is invisible); the equilibrium of the property is the ION Maxwellian
     consts = {}
@@ -188,12 +190,17 @@ def one_setup(chk, drv, it, stats):
         consts = {'CTi': rng.uniform(0.6, 1.4), 'kTi': rng.uniform(0.05, 0.4), 'deltaRTi': rng.uniform(0.8, 3.0),
                   'CTe': rng.uniform(0.6, 1.4), 'kTe': rng.uniform(0.05, 0.4), 'deltaRTe': rng.uniform(0.8, 3.0),
                   'kN0': rng.uniform(0.02, 0.1), 'deltaRN0': rng.uniform(1.5, 4.0)}
+    if it % 5 == 3:
+        # a flat ion temperature (kTi exactly zero) with a density profile that is NOT flat: the equilibrium still depends on the radius
+        consts = dict(consts, kTi=0.0, kN0=[0.055, 0.1][it // 5 % 2])
     if it % 3 == 1:
         # the centre of the radial profiles is a constant of its own (a parameter file may give it): not the middle of the radial grid
         consts = dict(consts, rp=[3.1, 5.0, 10.4][it // 3 % 3])
     # v grids: equidistant, or graded towards one end (asymmetric); (periodic v spaces: the weights are C09's subject, the exact
     # oracle here is written for clamped spaces)
     vkind = rng.choice(['uniform', 'uniform', 'graded', 'graded'])
+    if it % 6 == 4:
+        vkind = 'graded-steep'       # cells growing geometrically by a factor 4: some exact quadrature weights are NEGATIVE
     if vkind != 'uniform':
         uniform_flag = uniform_flag and vkind == 'periodic'
         nv = max(nv, vdeg + 2)
@@ -202,6 +209,8 @@ def one_setup(chk, drv, it, stats):
         if 'graded' not in vkind:
             return np.linspace(lo, hi, n)
         w = np.array([1.0 + 0.35 * k for k in range(n - 1)]) * np.array([rng.uniform(0.8, 1.2) for _ in range(n - 1)])
+        if vkind == 'graded-steep':
+            w = 4.0 ** (np.arange(n - 1) % 4)
         x = np.concatenate([[0.0], np.cumsum(w)])
         out_ = lo + (hi - lo) * x / x[-1]
         out_[0], out_[-1] = lo, hi                      # the end points exactly
